@@ -7,7 +7,7 @@ MAIN = ["99_main.vrs"]
 
 STD = ["05_std.vrs"]
 PUSH_L1 = ["20_plumbing.vrs", "30_state.vrs", "40_common.vrs", "45_sem.vrs", "48_print.vrs"]
-PUSH_L2 = ["50_int.vrs", "52_bool.vrs"]
+PUSH_L2 = ["50_int.vrs", "52_bool.vrs", "54_exec.vrs", "56_float.vrs", "60_interp.vrs"]
 PUSH = PRELUDE + STD + STACK + PUSH_L1 + PUSH_L2 + MAIN
 
 PUSH_ASSUME = [
